@@ -187,7 +187,7 @@ static void mutate(int w, int j, uint64_t kind, uint64_t param) {
     Variant& v = V(p);
     Val child; child.t = (param % 2) ? Val::STR : Val::INT; child.s = gs; child.i = (long)(param % 1000);
     static const char* const collide[4] = {"kamak", "kbmbk", "kcmck", "kdmdk"};   /* same length, first, middle and last character: one hash bucket chain */
-    switch (kind % 18) {   // (assigning a *container* taken from inside the own payload, v = v.toMap()[k].toMap(), is caller misuse as for any container and is not generated)
+    switch (kind % 20) {   // (assigning a *container* taken from inside the own payload, v = v.toMap()[k].toMap(), is caller misuse as for any container and is not generated)
     case 7: { // assign from a handle that lives inside the own payload (e.g. walking down a tree): v = v.toList().front()
       if ((m.t == Val::LIST || m.t == Val::ARR || m.t == Val::MAP) && !m.kids.empty()) { const Variant& cv = v; if (m.t == Val::LIST) v = cv.toList().front(); else if (m.t == Val::ARR) v = cv.toArray()[0]; else v = *cv.toMap().begin(); Val c = m.kids[0].second; m = c; probe("assign_from_nested_handle"); }
       break; }
@@ -207,6 +207,22 @@ static void mutate(int w, int j, uint64_t kind, uint64_t param) {
       break; }
     case 9: { /* remove one key of a map payload */
       if (m.t == Val::MAP && !m.kids.empty()) { size_t at = (size_t)(param % m.kids.size()); std::string key = m.kids[at].first; v.toMap().remove(mkString(key)); m.kids.erase(m.kids.begin() + at); probe("map_key_removed"); }
+      break; }
+    case 18: { /* the container assignment overloads, from an independent container: empty (the shared static one a non-container Variant hands out) or with one element */
+      const Variant other((int64)7); Val one; one.t = Val::STR; one.s = gs;
+      switch (param % 6) {
+      case 0: v = other.toArray(); m = Val(); m.t = Val::ARR; break;
+      case 1: v = other.toList(); m = Val(); m.t = Val::LIST; break;
+      case 2: v = other.toMap(); m = Val(); m.t = Val::MAP; break;
+      case 3: { Array<Variant> a; a.append(mkVariant(one)); v = a; m = Val(); m.t = Val::ARR; m.kids.push_back({"", one}); break; }
+      case 4: { List<Variant> l; l.append(mkVariant(one)); v = l; m = Val(); m.t = Val::LIST; m.kids.push_back({"", one}); break; }
+      case 5: { HashMap<String, Variant> h; h.append(mkString("ck"), mkVariant(one)); v = h; m = Val(); m.t = Val::MAP; m.kids.push_back({"ck", one}); break; } }
+      probe("container_assigned"); break; }
+    case 19: { /* container-level assignment inside the payload: the array / list / map itself is assigned an empty or a one-element container */
+      Val one; one.t = Val::INT; one.i = (long)(param % 1000);
+      if (m.t == Val::ARR) { Array<Variant> a; if (param % 2) a.append(mkVariant(one)); v.toArray() = a; m.kids.clear(); if (param % 2) m.kids.push_back({"", one}); }
+      else if (m.t == Val::LIST) { List<Variant> l; if (param % 2) l.append(mkVariant(one)); v.toList() = l; m.kids.clear(); if (param % 2) m.kids.push_back({"", one}); }
+      else if (m.t == Val::MAP) { HashMap<String, Variant> h; if (param % 2) h.append(mkString("ck"), mkVariant(one)); v.toMap() = h; m.kids.clear(); if (param % 2) m.kids.push_back({"ck", one}); }
       break; }
     case 16: { /* overwrite a key of a map payload with the handle that is stored under it: m.insert(k, *m.find(k)) */
       if (m.t == Val::MAP && !m.kids.empty()) { size_t at = (size_t)(param % m.kids.size()); HashMap<String, Variant>& h = v.toMap(); HashMap<String, Variant>::Iterator it = h.find(mkString(m.kids[at].first)); if (it != h.end()) { h.append(mkString(m.kids[at].first), *it); probe("map_key_overwritten_with_itself"); } }
@@ -371,7 +387,7 @@ static void generate(RunSpec& s, int tier) {
     for (int i = 0; i < n; ++i) {
       Op o; o.task = w; o.a[0] = (int64_t)r(k); o.a[1] = (int64_t)r(k); o.a[2] = (int64_t)r(1000); o.a[3] = (int64_t)r(1000);
       uint64_t c = r(100);
-      if (mapFocus && r(10) < 7) { c = 50; o.a[1] = (int64_t)r(2); bool ins = r(5) < 3; o.a[2] = fam == F_VARIANT ? (int64_t)(18 * r(50) + (ins ? 8 : (r(4) ? 9 : 16 + (int64_t)r(2)))) : (int64_t)(10 * r(50) + (ins ? 5 : 6)); }
+      if (mapFocus && r(10) < 7) { c = 50; o.a[1] = (int64_t)r(2); bool ins = r(5) < 3; o.a[2] = fam == F_VARIANT ? (int64_t)(20 * r(50) + (ins ? 8 : (r(4) ? 9 : 16 + (int64_t)r(2)))) : (int64_t)(10 * r(50) + (ins ? 5 : 6)); }
       o.code = c < 18 ? O_COPY : c < 34 ? O_ASSIGN : c < 42 ? O_RECREATE : c < 66 ? O_MUTATE : c < 74 ? O_SWAP : c < 84 ? O_SEND : c < 94 ? O_RECV : c < 97 ? O_READ : O_WORK;
       if (o.code == O_ASSIGN && r(10) == 0) o.a[1] = o.a[0];
       s.plan.push_back(o);
